@@ -47,8 +47,55 @@ def doErrOne (s : State) (n sched : String) : State × String :=
     else (s, "bad-op")
   | none => (s, "bad-op")
 
+/-- one event of a `pubduring` line: `e.<n>` | `o.<n>` | `s.<n>.<ns>.<kind>.<param>` -/
+inductive Event where
+  | err (n : String)
+  | errOne (n : String)
+  | sub (n ns kind param : String)
+
+def parseEvent (f : String) : Option Event :=
+  match f.splitOn "." with
+  | ["e", n] => if validName n then some (.err n) else none
+  | ["o", n] => if validName n then some (.errOne n) else none
+  | ["s", n, ns, kind, pa] =>
+    match parseParam pa with
+    | some p => if validName n && validName ns && validName kind then some (.sub n ns kind p) else none
+    | none => none
+  | _ => none
+
+def parseEvents (a : String) : Option (List Event) :=
+  if a = "-" then some [] else (a.splitOn ",").mapM parseEvent
+
+def applyEvent (sc : String) (s : State) : Event → State
+  | .err n => (doErr s n sc).1
+  | .errOne n => (doErrOne s n sc).1
+  | .sub n ns kind p => (doSub s n ns kind (if p = "" then "-" else p) sc).1
+
+def showDeliveries (d : List Delivery) : String :=
+  joinOr "," (d.map (fun x => s!"{x.n}:{x.key}:{x.msg}"))
+
+/-- `pubduring`: the publish runs until it blocks in the first `Notify` to `slow`
+    (`pubUntilParked`); the events are applied (each to quiescence); the released publish goes on
+    over the snapshot it loaded and reads the remaining keys from the table as it is then
+    (`pubResume`).  A publish that never reaches `slow` completes before the events. -/
+def doPubDuring (s : State) (slow ns kind param m evs sched : String) : State × String :=
+  match parseParam param, parseEvents evs, parseSched sched with
+  | some p, some evs, some _ =>
+    if validName slow && validName ns && validName kind && validName m then
+      let (pre, parked) := pubUntilParked s.table m slow (pubKeys ns kind p)
+      let s' := evs.foldl (applyEvent sched) s
+      match parked with
+      | none => ({ s' with log := s'.log ++ pre }, "p=0 " ++ showDeliveries pre)
+      | some pk =>
+        let d := pre ++ pubResume s'.table m pk
+        ({ s' with log := s'.log ++ d }, "p=1 " ++ showDeliveries d)
+    else (s, "bad-op")
+  | _, _, _ => (s, "bad-op")
+
 def step (s : State) (op : List String) : State × String :=
   match op with
+  | ["pubduring", slow, ns, kind, param, m, evs] => doPubDuring s slow ns kind param m evs ""
+  | ["pubduring", slow, ns, kind, param, m, evs, sched] => doPubDuring s slow ns kind param m evs sched
   | ["errone", n] => doErrOne s n ""
   | ["errone", n, sched] => doErrOne s n sched
   | ["sub", n, ns, kind, param] => doSub s n ns kind param ""
